@@ -41,6 +41,18 @@ const RESPONSE_HEADER_C: &[u8] = b"\r\n\r\n";
 static RESPONSE_HEADER: Lazy<Vec<u8>> =
     Lazy::new(|| [RESPONSE_HEADER_A, RESPONSE_HEADER_B, RESPONSE_HEADER_C].concat());
 
+/// Maximum value of `protocol.max_peers` for which an announce response is
+/// guaranteed to fit in the response buffer
+pub fn max_peers_fitting_response_buffer(config: &Config) -> usize {
+    // HTTP header, bencode dictionary keys, three integers of up to 20
+    // digits, two string length prefixes and final newline
+    const OVERHEAD: usize = 256;
+
+    let peer_len = if config.network.use_ipv6 { 18 } else { 6 };
+
+    (RESPONSE_BUFFER_SIZE - OVERHEAD) / peer_len
+}
+
 struct PendingScrapeResponse {
     pending_worker_responses: usize,
     stats: BTreeMap<InfoHash, ScrapeStatistics>,
